@@ -293,6 +293,9 @@ func doCase(c *Case, seed uint64, line []byte) Got {
 	got := Got{Runs: []Run{}, Annot: []int{}}
 	for _, src := range []string{"nodes", "waynodes"} {
 		for mi, mask := range c.Masks {
+			if src == "waynodes" && mi >= 2 {
+				continue // the partial masks are run with one coordinate source only
+			}
 			got.Runs = append(got.Runs, convert(build(c, l, src, mask), l, src, mi+1))
 		}
 	}
